@@ -26,7 +26,8 @@ IMPORTS = 'Require Import V.Base.MachineInt V.Model.Descriptor V.Oracle.C17Oracl
 RULE = ('boundary-centred grid: initial term id in {MIN, MIN+1, -1, 0, 1, MAX-65536..MAX dense, random}, elapsed terms n in '
         '{0,1,2,3,65535,65536,2^31-2,2^31-1, random}, all 15 legal term lengths (bits 16..30), offsets {0,32,TL-32,TL,random aligned}; '
         'kinds: pos (5 descriptor functions), hdr (Header::position on a crafted frame), rot (rotate_log on crafted meta data), '
-        'pub (real Publication::offer on an in-memory log handed over at (n0, off0)); debug and release builds. '
+        'pub / xpub (real Publication / ExclusivePublication offer on an in-memory log handed over at (n0, off0), n0 up to the last term 2^31-1), '
+        'ppos (position() of both publication flavours with the tail counter at, before and beyond the end of the term); debug and release builds. '
         'A case is non-trivial when init + n leaves the i32 range (the term id has wrapped) or n >= 2^16; distinct = distinct argument tuples. '
         'Before the cases run, the bodies of index_by_term, index_by_term_count, index_by_position, compute_position, '
         'compute_term_begin_position, term_id, term_offset, next_partition_index, previous_partition_index, rotate_log '
@@ -96,7 +97,20 @@ def generate(rng, tier):
         rng.shuffle(cases)
         keep = [c for c in cases if c['kind'] != 'pos'][:1200] + [c for c in cases if c['kind'] == 'pos'][:2500]
         cases = keep
-    return cases
+    # position() of a publication whose tail counter lies at / beyond the end of the term (tripped append, nobody rotated
+    # yet; the last term), exclusive publications, and offers in the very last term (n0 = 2^31 - 1): no rotation there
+    extra = []
+    for init in [MINI, -1, 0, 5, MAXI - 1, MAXI] + [rng.randrange(MINI, MAXI + 1) for _ in range(3 if not big else 12)]:
+        for n0 in [0, 1, 2, 65536, 2**31 - 2, 2**31 - 1] + [rng.randrange(0, 2**31)]:
+            bits = rng.choice([10, 12, 16])
+            tl = 1 << bits
+            for off0 in [0, 64, tl - 32, tl, tl + 32, tl + 96, tl + 32 * rng.randrange(1, 64), 32 * rng.randrange(0, tl // 32)]:
+                extra.append({'kind': 'ppos', 'args': [init, n0, bits, off0]})
+            for off0, ln in [(0, 40), (tl - 64, 100), (tl - 96, 30), (tl - 128, 96), (32 * rng.randrange(0, tl // 32), rng.randrange(0, 120))]:
+                extra.append({'kind': 'xpub', 'args': [init, n0, bits, off0, ln]})
+                if n0 >= 2**31 - 2:
+                    extra.append({'kind': 'pub', 'args': [init, n0, bits, off0, ln]})
+    return cases + extra
 
 
 def impl_line(c):
@@ -127,7 +141,11 @@ def model_expr(c, mode):
         return ('let s := c17_meta %s %s %s %s %s in (meta_tuple s, match rotate_log %s s %s (wrap32 (%s + %s)) with '
                 'Ok s1 => Ok (meta_tuple s1) | Err e => Err e | Panic => Panic | Hang => Hang | Crash => Crash end)' % (
                     z(init), z(n), z(o0), z(o1), z(o2), m, z(n), z(init), z(n)))
-    if c['kind'] == 'pub':
+    if c['kind'] == 'ppos':
+        init, n0, bits, off0 = a
+        e = 'model_ppos %s %s %s %s %s' % (m, z(init), z(n0), z(bits), z(off0))
+        return '(%s, %s)' % (e, e if off0 <= (1 << bits) else 'Skipped')
+    if c['kind'] in ('pub', 'xpub'):
         return None     # the publication path is modelled in C01/C04; here the oracle alone judges it
     raise ValueError(c)
 
@@ -147,9 +165,16 @@ def oracle_expr(c, mode, obs):
         before, after = ('tuple', obs[1][:4]), obs[1][4]
         after_c = to_coq(after) if after[1] != 'Ok' else '(Ok (tuple_meta %s))' % to_coq(after[2][0])
         return 'holds_rotate %s %s (tuple_meta %s) %s' % (z(init), z(n), to_coq(before), after_c)
-    if c['kind'] == 'pub':
+    if c['kind'] in ('pub', 'xpub'):
         init, n0, bits, off0, ln = a
         return 'holds_pub %s %s %s %s %s %s' % (z(init), z(n0), z(bits), z(off0), z(ln), to_coq(obs))
+    if c['kind'] == 'ppos':
+        init, n0, bits, off0 = a
+        sh, ex = obs[1][0], obs[1][1]
+        e = 'holds_ppos %s %s %s %s %s' % (z(init), z(n0), z(bits), z(off0), to_coq(sh))
+        if ex != ('app', 'Skipped', []):
+            e += ' && holds_ppos %s %s %s %s %s' % (z(init), z(n0), z(bits), z(off0), to_coq(ex))
+        return e
     raise ValueError(c)
 
 
@@ -166,7 +191,7 @@ def shrink(c):
             if v != a[i] and v >= 0:
                 b = list(a)
                 b[i] = v
-                if c['kind'] in ('pos', 'hdr', 'pub') and i == 2:
+                if c['kind'] in ('pos', 'hdr', 'pub', 'xpub', 'ppos') and i == 2:
                     continue
                 out.append({'kind': c['kind'], 'args': b})
     return out
